@@ -22,8 +22,10 @@ package c14
 import (
 	"fmt"
 	"io/ioutil"
+	"math/rand"
 	"os"
 	"path/filepath"
+	"runtime"
 	"sort"
 	"strconv"
 	"strings"
@@ -41,6 +43,7 @@ import (
 const (
 	keyBetweenGroupWrites = "search/missed-marker/rotation-between-group-writes"
 	keyConcurrentRotation = "search/missed-marker/concurrent-rotation"
+	keyConcurrentStrict   = "strict/concurrent-rotation"
 	groupWritePoint       = "group:write"
 )
 
@@ -50,6 +53,21 @@ const (
 	bindTap gwBinding = iota
 	bindHook
 )
+
+// pendingProbe: what the boundary probe found (it runs while TLC does; see flushPending).
+var (
+	pendingMu    sync.Mutex
+	pendingProbe *core.Violation
+)
+
+func flushPending(c *core.Ctx) {
+	pendingMu.Lock()
+	defer pendingMu.Unlock()
+	if pendingProbe != nil {
+		c.Violate(pendingProbe.Key, pendingProbe.Desc, pendingProbe.Record)
+		pendingProbe = nil
+	}
+}
 
 // gwMode: how a rotation between two Group.Write calls is realised (set once, before any replay).
 var gwMode = bindTap
@@ -418,7 +436,7 @@ func markerHeight(m cs.WALMessage) uint64 {
 // groupWriteBoundaryProbe: for every record kind (also block parts far larger than the head
 // buffer) and every boundary between two Group.Write calls of its Encode, the log
 //
-//	EndHeight(0) | EndHeight(1) sync | <the record, the group rotating at that boundary> | EndHeight(2) sync | timeout
+//	EndHeight(0) | EndHeight(1) sync | <the record, the group rotating at that boundary> | EndHeight(next) sync | timeout
 //
 // is written with the real WAL and read back. Nothing to do where Encode makes one call.
 func groupWriteBoundaryProbe(c *core.Ctx, base string) {
@@ -435,7 +453,7 @@ func groupWriteBoundaryProbe(c *core.Ctx, base string) {
 		msg  cs.WALMessage
 	}
 	var cands []cand
-	cands = append(cands, cand{"end-height", cs.EndHeightMessage{Height: 1 << 40}})
+	cands = append(cands, cand{"end-height", cs.EndHeightMessage{Height: 2}})
 	for k := 0; k < nKinds; k++ {
 		cands = append(cands, cand{kindNames[k], mkMsg(k, 2, 2, c.Seed)})
 	}
@@ -466,12 +484,14 @@ func groupWriteBoundaryProbe(c *core.Ctx, base string) {
 				return
 			}
 			tail := mkMsg(4, 4, 3, c.Seed)
+			// (marker heights increase, as the node writes them)
 			written := []cs.WALMessage{cs.EndHeightMessage{Height: 0}, cs.EndHeightMessage{Height: 1}, cd.msg, cs.EndHeightMessage{Height: 2}, tail}
 			recs := []int{0, 1, -1, 2, -1}
 			heights := []uint64{0, 1, 2}
-			if e, ok := cd.msg.(cs.EndHeightMessage); ok {
-				recs = []int{0, 1, 3, 2, -1} // (abstract heights only tell markers from messages here)
-				heights = append(heights, e.Height)
+			if _, ok := cd.msg.(cs.EndHeightMessage); ok {
+				written[3] = cs.EndHeightMessage{Height: 3}
+				recs = []int{0, 1, 2, 3, -1}
+				heights = []uint64{0, 1, 2, 3}
 			}
 			withSharedHook(func() { w.WriteSync(written[1]) })
 			if gwMode == bindHook {
@@ -500,10 +520,15 @@ func groupWriteBoundaryProbe(c *core.Ctx, base string) {
 			if fail != "" {
 				failed++
 				info["kind"] = "groupwrite-probe"
-				info["calls"] = fmt.Sprintf("NewWAL, Start, WriteSync(EndHeight{1}), Write(%s) = Group.Write calls of %v bytes with Group.RotateFile before call %d, WriteSync(EndHeight{2}), Write(timeout), Stop", cd.name, sizes, b.Call)
+				info["calls"] = fmt.Sprintf("NewWAL, Start, WriteSync(EndHeight{1}), Write(%s) = Group.Write calls of %v bytes with Group.RotateFile before call %d, WriteSync(EndHeight{next}), Write(timeout), Stop", cd.name, sizes, b.Call)
 				info["binding"] = bindingName()
-				c.Violate(keyBetweenGroupWrites, fmt.Sprintf("undamaged log, the group rotated between two Group.Write calls of one record (%s: calls of %v bytes, rotation after %d bytes): %s; files %v bytes, record starts %v",
-					cd.name, sizes, b.Bytes, fail, info["file_sizes"], info["record_starts"]), info)
+				// (reported after the replay: a replayed model behaviour, which records the files, goes first)
+				pendingMu.Lock()
+				if pendingProbe == nil {
+					pendingProbe = &core.Violation{Key: keyBetweenGroupWrites, Record: info, Desc: fmt.Sprintf("undamaged log, the group rotated between two Group.Write calls of one record (%s: calls of %v bytes, rotation after %d bytes): %s; files %v bytes, record starts %v",
+						cd.name, sizes, b.Bytes, fail, info["file_sizes"], info["record_starts"])}
+				}
+				pendingMu.Unlock()
 			}
 		}
 	}
@@ -553,20 +578,21 @@ func concurrentRotationProbe(c *core.Ctx, base string, rounds, rotations int) {
 			c.Infra("concurrent rotation probe: %v", err)
 			return
 		}
-		var progress, stop int64
+		var progress, stop, writerDone int64
 		var written []cs.WALMessage
-		var recs []int
-		var kinds []string
 		written = append(written, cs.EndHeightMessage{Height: 0})
-		recs = append(recs, 0)
-		kinds = append(kinds, "end-height")
+		// (the same vote and block part for every height: building messages would only widen the
+		// part of the writer's loop in which no rotation can land inside a record)
+		v := mkMsg(0, 1, 1, c.Seed+int64(round))
+		p := mkMsg(3, 2, 1, c.Seed+int64(round))
 		var wg sync.WaitGroup
 		wg.Add(1)
+		var writerPanic, rotatorPanic interface{}
 		go func() {
 			defer wg.Done()
-			for h := uint64(1); atomic.LoadInt64(&stop) == 0 && h < 4000; h++ {
-				v := mkMsg(0, int(h), h, c.Seed+int64(round))
-				p := mkMsg(3, int(h), h, c.Seed+int64(round))
+			defer atomic.StoreInt64(&writerDone, 1)
+			defer func() { writerPanic = recover() }()                           // (baseWAL.Write panics when the group reports an error)
+			for h := uint64(1); atomic.LoadInt64(&stop) == 0 && h <= 1500; h++ { // (reading back is quadratic)
 				e := cs.EndHeightMessage{Height: h}
 				w.Write(v)
 				atomic.AddInt64(&progress, 1)
@@ -575,35 +601,55 @@ func concurrentRotationProbe(c *core.Ctx, base string, rounds, rotations int) {
 				w.Write(e) // (not WriteSync: the window between two group writes is what matters, not the fsync)
 				atomic.AddInt64(&progress, 1)
 				written = append(written, v, p, e)
-				recs = append(recs, -1, -1, int(h))
-				kinds = append(kinds, "vote-prevote", "block-part", "end-height")
 			}
 		}()
 		done := 0
 		seen := int64(0)
 		spins := 0
-		for done < rotations && spins < 50000000 {
-			// rotate only after the writer has moved on (no sleeps: the writer's progress is the clock)
-			if p := atomic.LoadInt64(&progress); p > seen {
-				seen = p
-				w.Group().RotateFile()
-				done++
-			} else {
-				spins++
-				if spins%64 == 0 {
-					time.Sleep(time.Microsecond) // let the writer run on a loaded machine
+		rng := rand.New(rand.NewSource(c.Seed*7 + int64(round)))
+		var sink uint64
+		func() {
+			defer func() { rotatorPanic = recover() }()
+			for done < rotations && spins < 50000000 && atomic.LoadInt64(&writerDone) == 0 {
+				// rotate only after the writer has moved on (the writer's progress is the clock), a
+				// random few hundred nanoseconds later: RotateFile takes long enough for the writer to
+				// be waiting at the start of a record whenever it returns
+				if p := atomic.LoadInt64(&progress); p > seen {
+					for i, k := 0, rng.Intn(4000); i < k; i++ {
+						sink += uint64(i)
+					}
+					w.Group().Head.Size() // as checkHeadSizeLimit does before it rotates (opens the head file if it is not open)
+					w.Group().RotateFile()
+					seen = atomic.LoadInt64(&progress)
+					done++
+				} else {
+					spins++
+					if spins%256 == 0 {
+						runtime.Gosched() // let the writer run on a loaded machine
+					}
 				}
 			}
-		}
+		}()
+		_ = sink
 		atomic.StoreInt64(&stop, 1)
 		wg.Wait()
 		unlock()
-		w.Stop()
-		w.Group().Head.Close()
-		// sampled markers: the first, the last, one in the middle, and 0
+		func() {
+			defer func() { recover() }()
+			w.Stop()
+			w.Group().Head.Close()
+		}()
+		if writerPanic != nil || rotatorPanic != nil {
+			// not what this property is about (nothing was read back): noted, the probe ends here
+			result["panic_while_writing"] = trunc(fmt.Sprint("Write: ", writerPanic, " RotateFile: ", rotatorPanic), 400)
+			c.Drift("concurrent rotation probe: the writer side panicked (Write: %s; RotateFile: %s)", trunc(fmt.Sprint(writerPanic), 200), trunc(fmt.Sprint(rotatorPanic), 200))
+			return
+		}
+		// sampled markers: 0 (every file is searched, each reader running to the end of the group:
+		// quadratic, which is what bounds the number of rotations) and the last one
 		last := uint64(len(written)-1) / 3
 		heights := []uint64{0}
-		for _, h := range []uint64{1, last / 2, last} {
+		for _, h := range []uint64{last} {
 			if h >= 1 && h != heights[len(heights)-1] {
 				heights = append(heights, h)
 			}
@@ -623,7 +669,11 @@ func concurrentRotationProbe(c *core.Ctx, base string, rounds, rotations int) {
 		if fail != "" {
 			r["kind"] = "concurrent"
 			r["calls"] = "goroutine A: loop { Write(vote); Write(block part); Write(EndHeight{h}) } ; goroutine B: Group().RotateFile() each time A has moved on"
-			c.Violate(keyConcurrentRotation, fmt.Sprintf("undamaged log written by one goroutine while another called Group.RotateFile %d times: %s", done, fail), r)
+			key := keyConcurrentRotation
+			if !strings.HasPrefix(fail, "SearchForEndHeight") {
+				key = keyConcurrentStrict // the strict reader does not yield the written sequence
+			}
+			c.Violate(key, fmt.Sprintf("undamaged log written by one goroutine while another called Group.RotateFile %d times: %s", done, fail), r)
 			return
 		}
 		if n, _ := info["files_beginning_inside_a_record"].(int); n > 0 {
@@ -642,7 +692,7 @@ func checkUndamagedLarge(dir string, written []cs.WALMessage, heights []uint64) 
 	}
 	defer w.Group().Head.Close()
 	g := w.Group()
-	info["files"] = g.MaxIndex() - g.MinIndex() + 1
+	info["files_in_group"] = g.MaxIndex() - g.MinIndex() + 1
 	// how many files begin inside a record (pi_shape: what makes the search fail)
 	inside := 0
 	fis, err := ioutil.ReadDir(dir)
